@@ -212,3 +212,173 @@ def is_sorted_realisation(orig, positions, ascending, stable):
             if same and positions[i] > positions[i + 1]:
                 return False
     return True
+
+
+# ------------------------------------------------------------------------------------------ slicing (C01)
+
+class IndexErr(Exception):
+    """the selection is out of range: the library must raise"""
+
+
+def _levels(T):
+    """number of list levels of a value of type T (0 for a leaf), through options"""
+    n = 0
+    while True:
+        if T[0] == "option":
+            T = T[1]
+        elif T[0] in ("list", "regular"):
+            n += 1
+            T = T[1]
+        else:
+            return n
+
+
+def _elem(T):
+    """type of the elements of a list-typed value (through an option)"""
+    if T[0] == "option":
+        T = T[1]
+    if T[0] not in ("list", "regular"):
+        raise Refuse("indexing below the leaves")
+    return T[1]
+
+
+def _project_type(T, key):
+    if T[0] in ("list", "regular"):
+        return (T[0], _project_type(T[1], key)) + tuple(T[2:])
+    if T[0] == "option":
+        return ("option", _project_type(T[1], key))
+    if T[0] == "record":
+        if T[1] is None:
+            return T[2][int(key)]
+        return T[2][T[1].index(key)]
+    raise Refuse("no record to project")
+
+
+def project(v, key):
+    if v is None:
+        return None
+    if isinstance(v, dict):
+        return v[key]
+    if isinstance(v, tuple):
+        return v[int(key)]
+    if isinstance(v, list):
+        return [project(e, key) for e in v]
+    raise Refuse("no record to project")
+
+
+def _wrapidx(i, n):
+    j = i + n if i < 0 else i
+    if not (0 <= j < n):
+        raise IndexErr("index %d out of range for length %d" % (i, n))
+    return j
+
+
+def _consumes(item):
+    return item[0] in ("at", "rng", "arr")
+
+
+def _shape_build(flat, shape):
+    if len(shape) == 1:
+        return list(flat[:shape[0]])
+    step = 1
+    for s in shape[1:]:
+        step *= s
+    return [_shape_build(flat[i * step:(i + 1) * step], shape[1:]) for i in range(shape[0])]
+
+
+def getitem(x, T, items):
+    """x: the array (list of values of type T); items: list of slice items
+         ("at", i) ("rng", a, b, s) ("ell",) ("new",) ("fld", key)
+         ("arr", flat ints, shape)   -- all array items of one slice have the same shape and are adjacent
+         ("miss", list of int/None)  -- one-dimensional, the only array item
+    """
+    return _R(x, ("list", T), list(items), None)
+
+
+def _R(v, T, items, adv):
+    if not items:
+        return v
+    head, tail = items[0], items[1:]
+    k = head[0]
+    if k == "fld":
+        return _R(project(v, head[1]), _project_type(T, head[1]), tail, adv)
+    if k == "new":
+        return [_R(v, T, tail, adv)]
+    if k == "ell":
+        need = _levels(T) - sum(1 for it in tail if _consumes(it) or it[0] == "miss")
+        return _R(v, T, [("rng", None, None, None)] * max(0, need) + tail, adv)
+    if v is None:
+        return None
+    if not isinstance(v, list):
+        raise Refuse("indexing below the leaves")
+    ET = _elem(T)
+    if k == "at":
+        return _R(v[_wrapidx(head[1], len(v))], ET, tail, adv)
+    if k == "rng":
+        return [_R(e, ET, tail, adv) for e in v[slice(head[1], head[2], head[3])]]
+    if k == "arr":
+        flat, shape = head[1], head[2]
+        if adv is None:
+            out = [_R(v[_wrapidx(flat[j], len(v))], ET, tail, j) for j in range(len(flat))]
+            return _shape_build(out, shape) if len(flat) or len(shape) == 1 else _empty_shape(shape)
+        return _R(v[_wrapidx(flat[adv], len(v))], ET, tail, adv)
+    if k == "miss":
+        return [None if i is None else _R(v[_wrapidx(i, len(v))], ET, tail, j) for j, i in enumerate(head[1])]
+    raise ValueError(head)
+
+
+def _empty_shape(shape):
+    if len(shape) == 1:
+        return []
+    return [_empty_shape(shape[1:]) for _ in range(shape[0])]
+
+
+def jagged(v, J):
+    """v[J] for a jagged index J (lists of int / bool / None leaves) matching v's list structure"""
+    if v is None:
+        return None
+    if all(isinstance(k, bool) for k in J) and len(J) > 0:
+        if len(J) != len(v):
+            raise IndexErr("boolean jagged index of the wrong length")
+        return [e for e, k in zip(v, J) if k]
+    if all((k is None) or (isinstance(k, int) and not isinstance(k, bool)) for k in J):
+        return [None if k is None else v[_wrapidx(k, len(v))] for k in J]
+    if all(isinstance(k, list) or k is None for k in J):
+        if len(J) != len(v):
+            raise IndexErr("jagged index of the wrong length")
+        return [None if k is None else jagged(e, k) for e, k in zip(v, J)]
+    raise Refuse("mixed jagged index")
+
+
+def regular_out_of_range(T, items):
+    """True when an integer (or array entry) is out of range for a REGULAR dimension: NumPy raises for that even when
+    no list is selected, so the library may raise although the level-by-level selection is empty"""
+    T = ("list", T)
+    items = list(items)
+    while items:
+        head, items = items[0], items[1:]
+        k = head[0]
+        if k in ("new",):
+            continue
+        if k == "fld":
+            try:
+                T = _project_type(T, head[1])
+            except Refuse:
+                return False
+            continue
+        if k == "ell":
+            need = _levels(T) - sum(1 for it in items if _consumes(it) or it[0] == "miss")
+            items = [("rng", None, None, None)] * max(0, need) + items
+            continue
+        while T[0] == "option":
+            T = T[1]
+        if T[0] not in ("list", "regular"):
+            return False
+        if T[0] == "regular":
+            size = T[2]
+            idxs = [head[1]] if k == "at" else (list(head[1]) if k in ("arr", "miss") else [])
+            for i in idxs:
+                if i is not None and not (-size <= i < size):
+                    return True
+        T = T[1]
+    return False
